@@ -9,7 +9,7 @@ SCRATCH = "/tmp/mutrepo"
 
 M = [
  # id, file, old, new, checks
- ("c01-accept-no-second-compare", "shrink.go", "\tif !sameError(err1, err2) {\n\t\tpanic(err2)\n\t}\n", "", ["C01", "C05"]),
+ ("c01-accept-no-second-compare", "shrink.go", "\tif !sameError(err1, err2) {\n\t\tpanic(err2)\n\t}\n", "\t_ = err2\n", ["C01", "C05"]),
  ("c01-docheck-no-repro-compare", "engine.go", "\tif !sameError(err1, err2) {\n\t\treturn valid, invalid, false, seed, \"\", s.data, err1, err2\n\t}\n", "", ["C01", "C07"]),
  ("c01-removegroup-offset", "data.go", "\t\tif rec.groups[j].begin >= g.end {\n\t\t\trec.groups[j].begin -= n\n\t\t}", "\t\tif rec.groups[j].begin > g.end {\n\t\t\trec.groups[j].begin -= n\n\t\t}", ["C01", "C04", "C05"]),
  ("c01-accept-unpruned", "shrink.go", "\ts.rec = s2.recordedBits\n\ts.rec.prune()\n\tassert(compareData(s.rec.data, buf) <= 0)\n", "\ts.rec = s2.recordedBits\n", ["C01", "C05"]),
